@@ -86,6 +86,10 @@ End Partitions.
 Definition h2p (n : nat) (ts : list triple) (t : N) (i : nat) : option (nat * nat) :=
   h2p_rec ts (tbit t) n i.
 
+(* the same map tabulated once (as the constructor of PedigreePartitions does); None outside 0..n-1 *)
+Definition h2p_tab (n : nat) (ts : list triple) (t : N) : nat -> option (nat * nat) :=
+  let tab := map (h2p n ts t) (seq 0 n) in fun i => nth i tab None.
+
 Definition part_count (n : nat) (ts : list triple) : nat := 2 * (n - length ts).
 
 (* ------------------------------------------------------------------ allowed assignments *)
@@ -115,8 +119,14 @@ Definition abit (a : N) (p : nat) : bool := N.testbit a (N.of_nat p).
 
 (* allele_assignments, in the code's enumeration order 0 .. 2^partition_count - 1 *)
 Definition allowed (n : nat) (ts : list triple) (t : N) (gs : list geno) : list N :=
-  filter (fun a => compatible n (h2p n ts t) gs (abit a))
+  let hp := h2p_tab n ts t in
+  filter (fun a => compatible n hp gs (abit a))
          (map N.of_nat (seq 0 (2 ^ part_count n ts))).
+
+(* is allele_assignments non-empty? (short-circuiting form used by the conflict oracle) *)
+Definition has_allowed (n : nat) (ts : list triple) (t : N) (gs : list geno) : bool :=
+  let hp := h2p_tab n ts t in
+  existsb (fun a => compatible n hp gs (abit a)) (map N.of_nat (seq 0 (2 ^ part_count n ts))).
 
 (* ------------------------------------------------------------------ set_partitioning *)
 (* one entry of the column: (individual of the read, side of the bipartition (false = haplotype 0),
@@ -125,12 +135,13 @@ Definition entry := (nat * bool * Z * Z)%type.
 
 (* cost_partition[p] = (cost of giving partition p the allele 0, cost of giving it the allele 1) *)
 Definition cost_partition (n : nat) (ts : list triple) (t : N) (es : list entry) : list (Z * Z) :=
+  let hp := h2p_tab n ts t in
   map (fun p =>
          fold_left (fun acc (e : entry) =>
                       match e with (i, side, al, q) =>
-                        match h2p n ts t i with
-                        | Some hp =>
-                            if sel hp side =? p then
+                        match hp i with
+                        | Some pr =>
+                            if sel pr side =? p then
                               (if Z.eqb al 1 then (fst acc + q, snd acc)
                                else if Z.eqb al 0 then (fst acc, snd acc + q) else acc)%Z
                             else acc
@@ -169,7 +180,7 @@ Definition is_tie (pc : nat) (cp : list (Z * Z)) (hp : nat -> option (nat * nat)
   Z.eqb (Z.abs (to_int (bcfa pc cp hp al i h false) - to_int (bcfa pc cp hp al i h true))) 0.
 
 Definition get_alleles (n : nat) (ts : list triple) (t : N) (cp : list (Z * Z)) (gs : list geno) : col_result :=
-  let hp := h2p n ts t in
+  let hp := h2p_tab n ts t in
   if negb (forallb (fun i => match hp i with Some _ => true | None => false end) (seq 0 n))
   then NoTermination
   else
@@ -328,8 +339,7 @@ Definition sr_column_ok (n : nat) (ts : list triple) (gs : list geno) (t : N) (l
 
 (* conflict-stream oracle of the model: does some column admit no transmission value at all? *)
 Definition no_assignment (n : nat) (ts : list triple) (gs : list geno) : bool :=
-  forallb (fun t => match allowed n ts (N.of_nat t) gs with [] => true | _ => false end)
-          (seq 0 (4 ^ length ts)).
+  forallb (fun t => negb (has_allowed n ts (N.of_nat t) gs)) (seq 0 (4 ^ length ts)).
 
 (* ------------------------------------------------------------------ witnesses used by the proofs' statements *)
 (* well-formed pedigree with a topological numbering rk (acyclic): executable check *)
